@@ -74,6 +74,127 @@ fn gen(rng: &mut Rng) -> AProg {
     AProg { arities, tparams, impls, text: s }
 }
 
+
+/// Family 2: several impls of one trait for the same constructor, told apart by their argument
+/// patterns (`Pair<P0, P0>` vs `Pair<u32, S2<P0>>`, `S3<u32>` vs `S3<S0>`), by where-clauses
+/// (`impl<P0> T for S3<P0> where P0: M` next to `impl T for S3<S1>` with `S1: M` unprovable) or a
+/// blanket impl `impl<P0> T for P0 where P0: M`.  Coherence is established by chalk's own check: an
+/// impl whose addition makes `checked_program` fail is dropped.
+struct AProg2 {
+    arities: Vec<usize>,
+    /// (trait, self-type pattern over P0/P1)
+    impls: Vec<(usize, String)>,
+    ntraits: usize,
+    text: String,
+}
+
+fn pattern_arg(rng: &mut Rng, arities: &[usize], params: &[&str]) -> String {
+    let mut opts: Vec<String> = vec!["u32".into(), "S0".into(), "S1".into()];
+    for p in params {
+        opts.push(p.to_string());
+        opts.push(p.to_string());
+    }
+    for (j, a) in arities.iter().enumerate() {
+        if *a == 1 {
+            opts.push(format!("S{}<{}>", j, params[rng.usize_below(params.len())]));
+            opts.push(format!("S{}<u32>", j));
+        }
+    }
+    opts[rng.usize_below(opts.len())].clone()
+}
+
+fn checked_ok(text: &str) -> bool {
+    use chalk_integration::query::LoweringDatabase;
+    let t = text.to_string();
+    matches!(
+        catch(move || chalk_integration::db::ChalkDatabase::with(&t, chalk_integration::SolverChoice::slg_default()).checked_program().map(|_| ())),
+        Ok(Ok(()))
+    )
+}
+
+fn gen2(rng: &mut Rng) -> AProg2 {
+    let ns = 4 + rng.usize_below(2);
+    // S0, S1 nullary; the last one is the binary `Pair`
+    let arities: Vec<usize> = (0..ns).map(|i| if i < 2 { 0 } else if i == ns - 1 { 2 } else { rng.usize_below(2) }).collect();
+    let nt = 1 + rng.usize_below(2);
+    let mut base = String::new();
+    for (i, a) in arities.iter().enumerate() {
+        base.push_str(&format!("struct S{}{} {{}}\n", i, match a { 0 => "", 1 => "<P0>", _ => "<P0, P1>" }));
+    }
+    base.push_str("trait M {}\nimpl M for S0 {}\nimpl M for u32 {}\n");
+    for t in 0..nt {
+        base.push_str(&format!("trait T{} {{ type A{}; }}\n", t, t));
+    }
+    let mut impls: Vec<(usize, String)> = vec![];
+    let mut lines: Vec<String> = vec![];
+    for t in 0..nt {
+        let k = 3 + rng.usize_below(4);
+        for _ in 0..k {
+            let i = rng.usize_below(ns);
+            let (pat, wc) = if rng.chance(1, 10) {
+                ("P0".to_string(), " where P0: M".to_string())
+            } else {
+                let pat = match arities[i] {
+                    0 => format!("S{}", i),
+                    1 => format!("S{}<{}>", i, pattern_arg(rng, &arities, &["P0"])),
+                    _ => format!("S{}<{}, {}>", i, pattern_arg(rng, &arities, &["P0", "P1"]), pattern_arg(rng, &arities, &["P0", "P0", "P1"])),
+                };
+                let wc = if pat.contains("P0") && rng.chance(1, 3) { " where P0: M".to_string() } else { String::new() };
+                (pat, wc)
+            };
+            let used: Vec<&str> = ["P0", "P1"].iter().cloned().filter(|p| pat.contains(p)).collect();
+            let binder = if used.is_empty() { String::new() } else { format!("<{}>", used.join(", ")) };
+            // the value may mention the impl's parameters
+            let mut val = ty(rng, &arities[..ns - 1], 0, 2);
+            if !used.is_empty() && rng.chance(1, 2) {
+                val = match rng.usize_below(3) {
+                    0 => used[rng.usize_below(used.len())].to_string(),
+                    1 => format!("S{}<{}, u32>", ns - 1, used[0]),
+                    _ => val,
+                };
+            }
+            let line = format!("impl{} T{} for {}{} {{ type A{} = {}; }}\n", binder, t, pat, wc, t, val);
+            let candidate = format!("{}{}{}", base, lines.concat(), line);
+            if checked_ok(&candidate) {
+                lines.push(line);
+                impls.push((t, pat));
+            }
+        }
+    }
+    // declaration order is part of what is exercised: shuffle
+    for i in (1..lines.len()).rev() {
+        let j = rng.usize_below(i + 1);
+        lines.swap(i, j);
+    }
+    AProg2 { arities, impls, ntraits: nt, text: format!("{}{}", base, lines.concat()) }
+}
+
+fn proj2(rng: &mut Rng, p: &AProg2, var: Option<&str>) -> (String, usize) {
+    let ns = p.arities.len();
+    if !p.impls.is_empty() && rng.chance(5, 6) {
+        let (t, pat) = &p.impls[rng.usize_below(p.impls.len())];
+        let mut inst = |rng: &mut Rng| -> String {
+            if let Some(v) = var {
+                if rng.chance(1, 2) {
+                    return v.to_string();
+                }
+            }
+            ty(rng, &p.arities[..ns - 1], 0, 1)
+        };
+        let a = inst(rng);
+        let b = if rng.chance(1, 3) { a.clone() } else { inst(rng) };
+        (pat.replace("P0", &a).replace("P1", &b), *t)
+    } else {
+        let i = rng.usize_below(ns);
+        let s = match p.arities[i] {
+            0 => format!("S{}", i),
+            1 => format!("S{}<{}>", i, ty(rng, &p.arities[..ns - 1], 0, 1)),
+            _ => format!("S{}<{}, {}>", i, ty(rng, &p.arities[..ns - 1], 0, 1), ty(rng, &p.arities[..ns - 1], 0, 1)),
+        };
+        (s, rng.usize_below(p.ntraits))
+    }
+}
+
 fn proj(rng: &mut Rng, p: &AProg, vars: &[&str]) -> (String, usize, String) {
     // a projection `<Ty as Tk>::Ak`, mostly on a self type that has an impl
     let (t, i) = if !p.impls.is_empty() && rng.chance(4, 5) {
@@ -88,28 +209,18 @@ fn proj(rng: &mut Rng, p: &AProg, vars: &[&str]) -> (String, usize, String) {
 }
 
 pub fn run(ctx: &Ctx, out: &mut Out) {
+    let mut jobs: Vec<(String, Vec<String>)> = vec![];
+    // corpus lines `program | lines ;; goal ; goal`
+    for l in ctx.corpus_lines() {
+        if let Some((p, g)) = l.split_once(";;") {
+            jobs.push((p.trim().replace(" | ", "\n"), g.split(';').map(|s| s.trim().to_string()).collect()));
+        }
+    }
     let nprog = ctx.budget(150, 5000);
     for i in 0..nprog {
         let mut rng = ctx.rng(0, i as u64);
         let p = gen(&mut rng);
-        let text = p.text.clone();
-        let (_db, program) = match lower_program(&text, chalk_integration::SolverChoice::slg_default()) {
-            Ok(x) => x,
-            Err(e) => {
-                out.count("program_rejected");
-                out.notes.push(format!("program rejected: {} :: {}", e, text.replace('\n', " ")));
-                continue;
-            }
-        };
-        let horn = match program_to_horn_assoc(&program) {
-            Some(x) => x,
-            None => {
-                out.count("program_out_of_fragment");
-                continue;
-            }
-        };
-        let sig = signature(&program);
-        out.count("programs");
+        let mut goals = vec![];
         for k in 0..8 {
             let gtext = match k % 4 {
                 0 => {
@@ -131,6 +242,59 @@ pub fn run(ctx: &Ctx, out: &mut Out) {
                     format!("forall<X> {{ exists<U> {{ Normalize(<{} as T{}{}>::A{} -> U) }} }}", s, t, a, t)
                 }
             };
+            goals.push(gtext);
+        }
+        jobs.push((p.text.clone(), goals));
+    }
+    // family 2: several impls per constructor (see gen2)
+    let nprog2 = ctx.budget(120, 5000);
+    for i in 0..nprog2 {
+        let mut rng = ctx.rng(2, i as u64);
+        let p = gen2(&mut rng);
+        out.count_n("family2_impls", p.impls.len() as u64);
+        let mut goals = vec![];
+        for k in 0..10 {
+            let gtext = match k % 4 {
+                0 => {
+                    let (s, t) = proj2(&mut rng, &p, None);
+                    format!("exists<U> {{ Normalize(<{} as T{}>::A{} -> U) }}", s, t, t)
+                }
+                1 => {
+                    let (s, t) = proj2(&mut rng, &p, None);
+                    format!("{}: T{}<A{} = {}>", s, t, t, ty(&mut rng, &p.arities[..p.arities.len() - 1], 0, 2))
+                }
+                2 => {
+                    let (s, t) = proj2(&mut rng, &p, None);
+                    format!("exists<U> {{ {}: T{}<A{} = U> }}", s, t, t)
+                }
+                _ => {
+                    let (s, t) = proj2(&mut rng, &p, Some("X"));
+                    format!("forall<X> {{ exists<U> {{ Normalize(<{} as T{}>::A{} -> U) }} }}", s, t, t)
+                }
+            };
+            goals.push(gtext);
+        }
+        jobs.push((p.text.clone(), goals));
+    }
+    for (text, goals) in jobs {
+        let (_db, program) = match lower_program(&text, chalk_integration::SolverChoice::slg_default()) {
+            Ok(x) => x,
+            Err(e) => {
+                out.count("program_rejected");
+                out.notes.push(format!("program rejected: {} :: {}", e, text.replace('\n', " ")));
+                continue;
+            }
+        };
+        let horn = match program_to_horn_assoc(&program) {
+            Some(x) => x,
+            None => {
+                out.count("program_out_of_fragment");
+                continue;
+            }
+        };
+        let sig = signature(&program);
+        out.count("programs");
+        for (k, gtext) in goals.into_iter().enumerate() {
             let goal = match lower_goal_text(&program, &gtext) {
                 Ok(g) => g,
                 Err(e) => {
